@@ -396,6 +396,13 @@ impl TextResourceBuilder {
                     serde_path_to_error::deserialize(deserializer);
                 match result {
                     Ok(mut builder) => {
+                        if builder.text.is_none() {
+                            // the included file must carry the text: without it the step below
+                            // would open the same file again, without end
+                            return Err(StamError::NoText(
+                                "TextResourceBuilder::build(): the included STAM JSON file holds no text",
+                            ));
+                        }
                         //recursion step into the new builder:
                         if self.id.is_some() && builder.id.is_none() {
                             builder.id = self.id;
